@@ -2,7 +2,9 @@ package raftsim
 
 import (
 	"fmt"
+	"os"
 	"sort"
+	"strings"
 	"time"
 
 	"github.com/anishathalye/porcupine"
@@ -279,6 +281,9 @@ func RunCase(opt Options, sink Sink, traceOn bool) (res Result) {
 	res.Sample["max_commit"] = s.mon.maxCommit
 	res.Sample["heal_rounds"] = g.doneRound
 	res.Sample["history_ops"] = len(s.mon.ops)
+	if p := os.Getenv("VERIF_TRACE_OUT"); p != "" && len(s.trace) > 0 {
+		_ = os.WriteFile(p, []byte(strings.Join(s.trace, "\n")+"\n"), 0o644)
+	}
 	if len(s.trace) > 0 {
 		t := s.trace
 		if len(t) > 25 {
